@@ -91,10 +91,10 @@ func _fontFamilyDesc(tokens []Token, allowSpaces bool) string {
 
 func fontFamilyDescriptor(tokens []Token, _ string, out *FontFaceDescriptors) error {
 	s := _fontFamilyDesc(tokens, false)
-	out.FontFamily = pr.String(s)
 	if s == "" {
 		return ErrInvalidValue
 	}
+	out.FontFamily = pr.String(s)
 	return nil
 }
 
@@ -138,7 +138,7 @@ func src(tokens []Token, baseUrl string, out *FontFaceDescriptors) error {
 			return ErrInvalidValue
 		}
 	}
-	out.Src = append(out.Src, l...)
+	out.Src = l // a repeated descriptor replaces the previous one
 	return nil
 }
 
@@ -323,14 +323,22 @@ func negative(tokens []Token, baseUrl string, out *csDescriptors) error {
 // @descriptor("counter-style", "prefix", wantsBaseUrl=true)
 // @descriptor("counter-style", "suffix", wantsBaseUrl=true)
 
-func prefix(tokens []Token, baseUrl string, out *csDescriptors) (err error) {
-	out.Prefix, err = _prefixSuffix(tokens, baseUrl)
-	return err
+func prefix(tokens []Token, baseUrl string, out *csDescriptors) error {
+	v, err := _prefixSuffix(tokens, baseUrl)
+	if err != nil {
+		return err
+	}
+	out.Prefix = v
+	return nil
 }
 
-func suffix(tokens []Token, baseUrl string, out *csDescriptors) (err error) {
-	out.Suffix, err = _prefixSuffix(tokens, baseUrl)
-	return err
+func suffix(tokens []Token, baseUrl string, out *csDescriptors) error {
+	v, err := _prefixSuffix(tokens, baseUrl)
+	if err != nil {
+		return err
+	}
+	out.Suffix = v
+	return nil
 }
 
 // “prefix“ && “suffix“ descriptors validation.
@@ -357,13 +365,16 @@ func rangeD(tokens []Token, _ string, out *csDescriptors) error {
 		}
 	}
 
+	// an invalid descriptor is ignored as a whole, a repeated one replaces the previous one
+	var ranges [][2]int
 	for _, part := range pa.SplitOnComma(tokens) {
 		result, err := range_(pa.RemoveWhitespace(part))
 		if err != nil {
 			return err
 		}
-		out.Range.Ranges = append(out.Range.Ranges, result)
+		ranges = append(ranges, result)
 	}
+	out.Range = pr.OptionalRanges{Ranges: ranges}
 	return nil
 }
 
@@ -456,29 +467,33 @@ func fallback(tokens []Token, _ string, out *csDescriptors) error {
 // @descriptor("counter-style", wantsBaseUrl=true)
 // “symbols“ descriptor validation.
 func symbols(tokens []Token, baseUrl string, out *csDescriptors) error {
+	var l []pr.NamedString
 	for _, token := range tokens {
 		if p, ok := stringIdentOrUrl(token, baseUrl); ok {
-			out.Symbols = append(out.Symbols, p)
+			l = append(l, p)
 		} else {
 			return ErrInvalidValue
 		}
 	}
+	out.Symbols = l
 	return nil
 }
 
 // @descriptor("counter-style", wantsBaseUrl=true)
 // “additive-symbols“ descriptor validation.
 func additiveSymbols(tokens []Token, baseUrl string, out *csDescriptors) error {
+	var l []pr.IntNamedString
 	for _, part := range pa.SplitOnComma(tokens) {
 		result, err := pad_(pa.RemoveWhitespace(part), baseUrl)
 		if err != nil {
 			return err
 		}
-		if L := len(out.AdditiveSymbols); L != 0 && out.AdditiveSymbols[L-1].Int <= result.Int {
+		if L := len(l); L != 0 && l[L-1].Int <= result.Int {
 			return ErrInvalidValue
 		}
-		out.AdditiveSymbols = append(out.AdditiveSymbols, result)
+		l = append(l, result)
 	}
+	out.AdditiveSymbols = l
 	return nil
 }
 
